@@ -124,10 +124,11 @@ func (it *Iterator) Seek(target []byte) bool {
 		return false
 	}
 
-	// Binary search through restart points
+	// Binary search for the last restart point whose key is < target: the
+	// first key >= target lies in that restart interval or right after it
 	left, right := 0, len(it.reader.restartPoints)-1
 	for left < right {
-		mid := (left + right) / 2
+		mid := (left + right + 1) / 2
 		it.restartIdx = mid
 		it.currentPos = it.reader.restartPoints[mid]
 
@@ -137,9 +138,9 @@ func (it *Iterator) Seek(target []byte) bool {
 		}
 
 		if bytes.Compare(key, target) < 0 {
-			left = mid + 1
+			left = mid
 		} else {
-			right = mid
+			right = mid - 1
 		}
 	}
 
@@ -163,17 +164,11 @@ func (it *Iterator) Seek(target []byte) bool {
 
 	// Otherwise, scan forward until we find the first key >= target
 	for {
-		savePos := it.currentPos
 		key, val, ok = it.decodeNext()
 		if !ok {
-			// Restore position to the last valid entry
-			it.currentPos = savePos
-			key, val, ok = it.decodeCurrent()
-			if ok {
-				it.currentKey = key
-				it.currentVal = val
-				return true
-			}
+			// Every key of the block is < target
+			it.currentKey = nil
+			it.currentVal = nil
 			return false
 		}
 
@@ -241,60 +236,18 @@ func (it *Iterator) SequenceNumber() uint64 {
 	return it.currentSeqNum
 }
 
-// decodeCurrent decodes the entry at the current position
+// decodeCurrent decodes the entry at the current position, which must be a
+// restart point (full key), and advances past it like decodeNext does, so that
+// a following decodeNext yields the next entry and not the same one again
 func (it *Iterator) decodeCurrent() ([]byte, []byte, bool) {
-	if it.currentPos >= it.dataEnd {
+	it.currentKey = nil
+	key, value, ok := it.decodeNext()
+	if !ok {
 		return nil, nil, false
-	}
-
-	data := it.reader.data[it.currentPos:]
-
-	// Read key
-	if len(data) < 2 {
-		return nil, nil, false
-	}
-	keyLen := binary.LittleEndian.Uint16(data)
-	data = data[2:]
-	if uint32(len(data)) < uint32(keyLen) {
-		return nil, nil, false
-	}
-
-	key := make([]byte, keyLen)
-	copy(key, data[:keyLen])
-	data = data[keyLen:]
-
-	// Read sequence number if format includes it (check if enough data for both seq num and value len)
-	seqNum := uint64(0)
-	if len(data) >= 12 { // 8 for seq num + 4 for value len
-		seqNum = binary.LittleEndian.Uint64(data)
-		data = data[8:]
-	}
-
-	// Read value
-	if len(data) < 4 {
-		return nil, nil, false
-	}
-
-	valueLen := binary.LittleEndian.Uint32(data)
-	data = data[4:]
-
-	var value []byte
-	if valueLen == TombstoneValueLengthMarker {
-		// This is a tombstone - value remains nil
-		value = nil
-	} else {
-		// Regular value
-		if uint32(len(data)) < valueLen {
-			return nil, nil, false
-		}
-
-		value = make([]byte, valueLen)
-		copy(value, data[:valueLen])
 	}
 
 	it.currentKey = key
 	it.currentVal = value
-	it.currentSeqNum = seqNum
 
 	return key, value, true
 }
